@@ -241,6 +241,19 @@ def main(argv):
         if crosscheck.get("exit") not in (0, None):
             errors.append(("tools/crosscheck.py", "assumed library contract refuted: " + "; ".join(crosscheck["disagreements"])[:1500]))
 
+    # conformance sampler of the assumed ghost view / spec transcription against the real code
+    ghostc = None
+    if prop in ("C01", "C02", "C10", "C14") and (tier == "thorough" or prop == "C01"):
+        budget = "120" if tier == "thorough" else "8"
+        env = dict(os.environ)
+        if REPO != "/repo":
+            env["PYTHONPATH"] = os.path.join(REPO, "src") + os.pathsep + env.get("PYTHONPATH", "")
+        try:
+            p = subprocess.run([PY, os.path.join(HERE, "tools", "ghost_conformance.py"), "--seed", str(seed), "--budget", budget], capture_output=True, text=True, timeout=900, cwd=HERE, env=env)
+            ghostc = {"exit": p.returncode, "summary": (p.stdout.strip().splitlines() or [""])[-1], "disagreements": [l[:300] for l in p.stdout.splitlines() if "!=" in l or "FALSE" in l][:5]}
+        except subprocess.TimeoutExpired:
+            ghostc = {"exit": None, "summary": "timed out"}
+
     status = 0
     lines = []
     for f, rec, res in known_hits:
@@ -265,6 +278,14 @@ def main(argv):
                    "bounded_result_file": bounded.get("file"), "replay_cmd": f"{PY} bounded/run.py --replay {bounded.get('file')}:0"}, open(path, "w"), indent=1, default=str)
         lines.append(f"VIOLATION property={prop} replay={path}")
         lines.append(f"  found by the bounded stand-in: {str(v.get('what'))[:300]}")
+        status = 1
+    if ghostc and ghostc.get("exit") == 1 and status == 0:
+        os.makedirs(rdir, exist_ok=True)
+        path = os.path.join(rdir, f"{prop}_ghost_conformance_{seed}.json")
+        json.dump({"property": prop, "found_by": "tools/ghost_conformance.py: the proved specification term (or an assumed ghost fact) disagrees with the real code on a concrete network",
+                   "details": ghostc, "replay_cmd": f"{PY} tools/ghost_conformance.py --seed {seed} --budget 30"}, open(path, "w"), indent=1)
+        lines.append(f"VIOLATION property={prop} replay={path}")
+        lines.append(f"  {ghostc['disagreements'][:1]}")
         status = 1
     if status == 0 and (undecided or vacuous or dead):
         status = 2
@@ -300,6 +321,8 @@ def main(argv):
     }
     if crosscheck is not None:
         coverage["model_vs_real_crosscheck"] = crosscheck
+    if ghostc is not None:
+        coverage["ghost_view_conformance_sampler"] = ghostc
     if bounded is not None:
         coverage["bounded_stand_in"] = {k: bounded.get(k) for k in ("evaluations", "distinct_nontrivial", "rule", "bound", "skipped", "error") if k in bounded}
         coverage["bounded_stand_in"]["violations"] = len(bounded.get("violations", []))
